@@ -433,6 +433,14 @@ def shard_framing(sh: Shard, seed, n):
         else:
             cli, spa = gen_id(r, r.choice(["ios", "and"])), gen_id(r, "spa")
             sender = (f"10.0.{r.randrange(256)}.{r.randrange(1, 255)}", r.choice([10022, r.randrange(1024, 65536)]))
+        if i % 11 == 7:
+            # an identifier that contains the closing tag of its OWN field (the frame stays decodable:
+            # the real end of the field is the closing tag directly followed by the next opening tag)
+            if r.random() < 0.5:
+                spa = spa[:3] + b"</SRCCN>" + spa[3:]
+            else:
+                cli = cli[:3] + b"</DESCN>" + cli[3:]
+            sh.count("identifiers_containing_their_own_closing_tag")
         payload = gen_payload(r)
         # the spa sends `payload` to the client
         tx = D.GeckoPacketProtocolHandler(content=payload, parms=("x", 0, cli, spa))
@@ -590,7 +598,7 @@ def main(tier, seed):
     run.need(run.counters.get("replies_addressed_back", 0) > 1000, "reply addressing hardly exercised")
     return run.finish(
         rule="every message constructor of the library: sequence/mode/key fields exhaustively 0..255, other fields at corners + seeded random values, payloads of 0..255 arbitrary bytes including newlines, quotes and the protocol's own tags, reminder lists of 0..10 records with signed days, every shipped platform name x config x log version, spa names incl. '|' and non-ASCII latin-1, realistic IOS/AND/SPA identifier pairs; one evaluation = one message built, laid out, claimed, decoded; distinct = distinct (message kind, crc32(wire) mod 2048) classes actually built",
-        assumptions=["documented layouts re-packed with struct in the harness", "identifiers are realistic IOS<uuid>/AND<hex>/SPA<mac> shapes; identifiers containing the protocol's tags are out of scope", "reminder types 0..6 are the in-range types"],
+        assumptions=["documented layouts re-packed with struct in the harness", "identifiers are realistic IOS<uuid>/AND<hex>/SPA<mac> shapes, also with the closing tag of their own field inside; identifiers containing a whole field boundary (closing tag followed by the next opening tag) are out of scope: no parser can tell", "reminder types 0..6 are the in-range types"],
     )
 
 
